@@ -5,6 +5,7 @@ KQuick == {"hit", "miss", "malformed", "badOpcode", "panic", "ignoredByChain", "
 KSmall == {"hit", "miss", "malformed", "panic"}
 NoReaders == {}
 KBatch == {"hit", "miss", "malformed", "ignoredByChain", "writeHandoff"}
+KBatchQ == {"hit", "miss", "malformed", "writeHandoff"}
 KBatchP == {"hit", "miss", "malformed", "panic", "ignoredByChain", "writeHandoff"}
 KAllKinds == AllKinds
 KMixedSmall == {"hit", "malformed"}
